@@ -135,6 +135,7 @@ fn gen_case(rng: &mut Rng) -> C13 {
         ln: rng.chance(3, 4),
         son: false,
         ml: true,
+        bin: Bin::None,
     };
     let input = gen_input(rng, lt);
     let pat = match rng.below(10) {
